@@ -166,6 +166,47 @@ theorem encode_mod (a : List Char) (len x : Nat) (ha : 0 < a.length) :
 /-- two different hashes can share a code: names are not injective in the content -/
 theorem code_collision : encode base37 4 0 = encode base37 4 (37 ^ 4) := by decide
 
+/-! ### Hash maps keyed by content: why `Hash` must agree with `Eq`
+
+The visitors keep their state in a `HashMap<&Node, _>`; `DataType` derives a structural `Hash` but its `==` is mutual
+inclusion.  A bucketed lookup (`bucketLookup`: only the keys whose hash equals the query's are compared) agrees with the
+plain first-match lookup for every hash function that respects the equality — in particular it does not depend on the
+per-map random seed — and it does depend on the seed as soon as two equal keys may hash differently. -/
+
+def bucketLookup {κ ν : Type} (h : κ → Nat) (eq : κ → κ → Bool) (l : List (κ × ν)) (k : κ) : Option ν :=
+  ((l.filter fun p => h p.1 == h k).find? fun p => eq p.1 k).map (·.2)
+
+def linearLookup {κ ν : Type} (eq : κ → κ → Bool) (l : List (κ × ν)) (k : κ) : Option ν :=
+  (l.find? fun p => eq p.1 k).map (·.2)
+
+theorem lawful_hash_lookup {κ ν : Type} (h : κ → Nat) (eq : κ → κ → Bool) (hl : ∀ a b, eq a b = true → h a = h b)
+    (l : List (κ × ν)) (k : κ) : bucketLookup h eq l k = linearLookup eq l k := by
+  unfold bucketLookup linearLookup
+  induction l with
+  | nil => simp
+  | cons p rest ih =>
+    by_cases hp : eq p.1 k = true
+    · have : (h p.1 == h k) = true := by simpa using hl _ _ hp
+      simp [List.filter_cons, this, List.find?_cons, hp]
+    · have hp' : eq p.1 k = false := by simpa using hp
+      by_cases hh : (h p.1 == h k) = true
+      · simp only [List.filter_cons, hh, if_true, List.find?_cons, hp']
+        exact ih
+      · have hh' : (h p.1 == h k) = false := by simpa using hh
+        simp only [List.filter_cons, hh', Bool.false_eq_true, if_false, List.find?_cons, hp']
+        exact ih
+
+/-- with a hash that respects equality, the answer does not depend on which such hash (which seed) the map uses -/
+theorem lawful_hash_seed_independent {κ ν : Type} (h h' : κ → Nat) (eq : κ → κ → Bool)
+    (hl : ∀ a b, eq a b = true → h a = h b) (hl' : ∀ a b, eq a b = true → h' a = h' b) (l : List (κ × ν)) (k : κ) :
+    bucketLookup h eq l k = bucketLookup h' eq l k := by
+  rw [lawful_hash_lookup h eq hl, lawful_hash_lookup h' eq hl']
+
+/-- two keys that are equal (`1 ≃ 2`) but hash apart under one seed and together under another: the lookup differs -/
+theorem hash_eq_mismatch_counterexample :
+    bucketLookup (fun k : Nat => k) (fun a b => a / 3 == b / 3) [(1, "float{0, 1}")] 2 ≠
+      bucketLookup (fun _ : Nat => 0) (fun a b => a / 3 == b / 3) [(1, "float{0, 1}")] 2 := by decide
+
 open Qrlew.Generated
 
 /-- modules the SQL reader, the relation builders and the renderer run through -/
